@@ -103,6 +103,8 @@ def run_sequence(acc, case):
                     return
                 # H10: local consumption (RFC 6733 6.1.4) - in Open, a request addressed to this node (by host, by realm, by both)
                 # is handed to the application, one addressed to another host or realm is not
+                if model == scen.OPEN and ev == "APP-req-host-only":
+                    acc.observe("host-only-request-handed-over-%d-times" % len([d for d in obs["delivered"] if d[2] == obs["ids"][0]]))
                 if model == scen.OPEN and ev in scen.FOR_THIS_NODE + scen.FOR_ANOTHER_NODE:
                     mine = [d for d in obs["delivered"] if d[2] == obs["ids"][0]]
                     acc.counters["addressing_judged"] += 1
